@@ -83,9 +83,9 @@ KINDS = ('plain', 'renamed', 'split', 'changed', 'mix')
 VALUE_KINDS = ('default', 'variant', 'different', 'dquote', 'allow', 'deny',
                'empty', 'list1', 'list2', 'list0', 'alias', 'casevariant',
                'aliasprefix', 'aliaslist', 'aliasspaced', 'astral',
-               'aliaslast', 'olddefault')
+               'aliaslast', 'olddefault', 'listblank')
 QUICK_VARIANT_KINDS = ('default', 'different', 'empty', 'list1', 'alias',
-                       'aliaslist', 'aliaslast')
+                       'aliaslist', 'aliaslast', 'listblank')
 TEXT_KINDS = ('default', 'variant', 'different', 'allow', 'deny', 'empty',
               'casevariant', 'astral', 'olddefault')
 
@@ -128,6 +128,11 @@ def value(vk, name, defaults, successors):
         # a role name with characters outside the ASCII range and outside
         # the Basic Multilingual Plane
         return 'role:d-\u00e9-\U0001f680'
+    if vk == 'listblank':
+        # list syntax: every entry is ONE check, also when it holds blanks,
+        # keywords or parentheses (these three entries match nobody / an
+        # attribute called "not role")
+        return [['role:a or role:c'], ['(role:b)', 'not role:z']]
     if vk == 'olddefault':
         # a registered name pinned to what its DEPRECATED default says (a
         # real override wherever old and new default differ)
